@@ -230,7 +230,7 @@ impl Property for C13 {
         "cases: (i) gadget programs: a prologue allocating two elements (recipes: all representatives; modes Witness/Input/Constant; via Element, \
          AffinePoint or field encoding) and two field elements (valid encodings and every invalid class of C02, Elligator / isqrt inputs), then 1..=8 \
          random gadget applications (compress, decompress, Elligator, 8 add/sub forms, 4 constant forms, negate, double, double_in_place, scalar_mul_le \
-         with witness or constant bits, is_eq/is_neq, (conditional) enforce (not) equal, conditional select, isqrt, sign tests, abs, to_bits/to_bytes), \
+         with witness or constant bits, is_eq/is_neq, is_zero, (conditional) enforce (not) equal with witness or constant conditions, conditional select (witness or constant condition), vector select over 1..8 registers, lazily allocated (possibly undecodable) operands, value() reads, isqrt, sign tests, abs, to_bits/to_bytes), \
          honest prover. After every step: output value() equals the native output (element, encoding bytes, well-formed coordinates), the system is \
          satisfied; a natively failing step (invalid decode, violated enforce) must leave it unsatisfied. (ii) histories on a lazy variable (start from \
          encoding or element; ForceElement/ForceEncoding/Value/UseInAdd/UseInEq/CloneThenForce): values unchanged, satisfied, constraint count \
